@@ -275,6 +275,7 @@ fn case_lookup(c: &mut Ctx, map: &BTreeMap<Isomorphism, Abstraction>, decl: &(Ve
                 // Lookup::save derives the file name from the first key: an empty lookup cannot be
                 // written at all (it panics before touching the disk); nothing is lost or misread.
                 c.run.count("lookup empty: save panics (no file written)");
+                c.run.notes.push("Lookup::save on an EMPTY lookup panics (`street()` = first key `.expect(\"non empty\")`) before any file is created: an empty isomorphism table cannot be written; the model does the same (saveLookup? = none)".into());
                 if !files.is_empty() {
                     c.run.fail("save-fails-but-writes", &op, "no file", &format!("{:?}", files.iter().map(|f| &f.0).collect::<Vec<_>>()));
                 }
@@ -302,7 +303,7 @@ fn main() {
     let scr = Scratch::new(&out);
     let mut c = Ctx { run, scr };
     let deep = a.thorough();
-    let nrand = if deep { 3000 } else { 300 };
+    let nrand = if deep { 20000 } else { 1500 };
     let big = if deep { 40000 } else { 4000 };
     c.run.rule = format!(
         "real save()+load() in a scratch directory for blueprint/metric/isomorphism tables: empty, one row, every edge kind x every street x every special float pattern (±0, ±inf, quiet/signalling NaN payloads, MAX, MIN_POSITIVE, subnormals, REGRET_MIN), {nrand} random tables of 0..60 rows per kind, tables of thousands of rows (blueprint {big} rows; metric 8128/10296/14196 rows = the flop/turn/preflop file names; lookup per street), keys with the sign bit set; the file bytes (hex up to {HEX_LIMIT} bytes, else length+FNV-1a) and the reloaded content are compared with the Lean model; the oracle is an independent length-driven COPY reader; non-trivial = at least one row; distinct by table content");
